@@ -694,7 +694,61 @@ func isByteSlice(st *types.Slice) bool {
 }
 
 func (ex *Exec) copyBuiltin(fr *Frame, c *ssa.CallCommon, args []Value) Value {
-	panic(unsupported("copy builtin"))
+	dst := args[0].(RefV)
+	// source as (length, byte/elem at i)
+	var srcLen *Term
+	var srcAt func(i int) Value
+	srcMax := 0
+	switch sv := args[1].(type) {
+	case StrV, BStrV:
+		bs := toBStr(sv)
+		srcLen, srcMax = bs.Len, len(bs.B)
+		srcAt = func(i int) Value { return IntV{bs.B[i], false} }
+	case RefV:
+		if isSparse(sv) {
+			panic(unsupported("copy from a sparse slice"))
+		}
+		srcLen = ex.sliceLen(sv)
+		for _, a := range sv.Alts {
+			if st := a.Tgt.(SliceT); st.phys() > srcMax {
+				srcMax = st.phys()
+			}
+		}
+		et := c.Args[1].Type().Underlying().(*types.Slice).Elem()
+		srcAt = func(i int) Value {
+			var acc Value = ZeroValue(et)
+			for _, a := range sv.Alts {
+				st := a.Tgt.(SliceT)
+				if i < st.phys() {
+					acc = MergeV(a.C, st.Arr.val.(ArrayV).E[st.Off+i], acc)
+				}
+			}
+			return acc
+		}
+	default:
+		panic(unsupported("copy from %T", args[1]))
+	}
+	dstLen := ex.sliceLen(dst)
+	n := Ite(BVCmp("bvslt", srcLen, dstLen), srcLen, dstLen)
+	for _, a := range dst.Alts {
+		st := a.Tgt.(SliceT)
+		if st.Pres != nil {
+			panic(unsupported("copy into a sparse slice"))
+		}
+		arr := st.Arr.val.(ArrayV)
+		ne := make([]Value, len(arr.E))
+		copy(ne, arr.E)
+		for i := 0; i < srcMax && i < st.Cap; i++ {
+			g := And(fr.guard, a.C, BVCmp("bvslt", BVC(int64(i), 64), n))
+			if g.IsFalse() {
+				continue
+			}
+			ne[st.Off+i] = MergeV(g, srcAt(i), ne[st.Off+i])
+			st.Arr.markDirty(st.Off + i)
+		}
+		st.Arr.val = ArrayV{E: ne}
+	}
+	return IntV{n, true}
 }
 
 var _ = fmt.Sprintf
